@@ -88,3 +88,35 @@ def check_C01(tier, seed):
                      "ids <= 3, datasets <= 2, bounded history depth (small-scope hypothesis)",
                      "badger, encoding/json are trusted"]
     return v.finish(rule=RULE_REPLAY)
+
+
+# ----------------------------------------------------------------------------
+# C02
+
+def check_C02(tier, seed):
+    v = Verdict("C02", tier, seed)
+    v.wd = verif.workdir("C02")
+    sd = verif.spec_copy(v.wd)
+    binary = verif.build_harness(v.wd)
+    thorough = tier == "thorough"
+    tabs = tables_for(tier, seed)
+    c4 = [content(1), content(2), content(0, d=True), content(1, d=True)]
+    # (a) one dataset, in-batch repeats, every since / limit / latestOnly, token walks
+    datahub_stage(v, sd, binary, "C02_batch", ds=["a"], ent=["e1", "e2"], contents=c4, max_batch=2,
+                  max_steps=3 if thorough else 2, tables=tabs, kinds=("chg", "ent"), limits=(0, 1, 2, 3),
+                  rotate=thorough)
+    # (b) token-carrying readers interleaved with writers
+    readers = [{"id": 1, "ds": "a", "lo": False, "lim": 1}, {"id": 2, "ds": "a", "lo": True, "lim": 2}]
+    datahub_stage(v, sd, binary, "C02_readers", ds=["a"], ent=["e1", "e2"], contents=c4[:3], max_batch=1,
+                  max_steps=6 if thorough else 5, acts=("store", "read"), readers=readers, tables=tabs,
+                  kinds=("chg",), limits=(0, 1), rotate=True)
+    # (c) two datasets + transactions (feeds are per dataset)
+    datahub_stage(v, sd, binary, "C02_multi", ds=["a", "b"], ent=["e1", "e2"], contents=c4[:3], max_batch=1,
+                  max_steps=3 if thorough else 2, acts=("store", "txn"), tables=tabs, kinds=("chg",), rotate=True)
+    # (d) deeper sampled histories with readers
+    datahub_stage(v, sd, binary, "C02_deep", ds=["a", "b"], ent=["e1", "e2", "e3"], contents=c4, max_batch=2,
+                  max_steps=9 if thorough else 7, acts=("store", "txn", "read"), readers=readers, tables=tabs,
+                  kinds=("chg",), sample=True, seed=seed, rotate=True, fan=6 if thorough else 5)
+    v.assumptions = ["change positions are compared numerically (tokens are the documented sequence numbers)",
+                     "contents from the concretisation tables; ids <= 3; bounded depth"]
+    return v.finish(rule=RULE_REPLAY)
